@@ -403,79 +403,6 @@ func TestC04(t *testing.T) {
 				}
 			}
 		}
-		// 3a. the rare branches of a 128-bit mantissa x power-of-ten product, at every decimal
-		// exponent: mantissas are drawn until the high word of (normalised mantissa x the top 64
-		// bits of 10^q) ends in nine one bits (the product needs the lower half of the power to be
-		// decided: one candidate in 512) or nine zero bits (candidate for a halfway case)
-		if e.enumStage("wide-product", "for every decimal exponent q in [-348, 347]: 19-digit and 16/17-digit mantissas w (rejection-sampled, 1 in 512) whose 64x64-bit product with the leading 64 bits of 10^q has a high word ending in 0x1FF (needs the wider approximation) or 0x000 (halfway candidates)", true) {
-			perA, perB := e.cfg.Pick(36, 600), e.cfg.Pick(12, 200)
-		wide:
-			for q := -348; q <= 347; q++ {
-				if !e.cfg.Mine(q + 348) {
-					continue
-				}
-				// leading 64 bits of 10^q
-				var powHi uint64
-				{
-					t := new(big.Int)
-					if q >= 0 {
-						t.Exp(big.NewInt(10), big.NewInt(int64(q)), nil)
-						if bl := t.BitLen(); bl > 64 {
-							t.Rsh(t, uint(bl-64))
-						} else {
-							t.Lsh(t, uint(64-bl))
-						}
-					} else {
-						d := new(big.Int).Exp(big.NewInt(10), big.NewInt(int64(-q)), nil)
-						t.Lsh(big.NewInt(1), uint(d.BitLen()+63))
-						t.Quo(t, d)
-						if bl := t.BitLen(); bl > 64 {
-							t.Rsh(t, uint(bl-64))
-						}
-					}
-					powHi = t.Uint64()
-				}
-				state := uint64(q+1000) * 0x9E3779B97F4A7C15
-				for _, width := range []uint64{19, 17, 16} {
-					lo10, span := uint64(1), uint64(9)
-					for i := uint64(1); i < width; i++ {
-						lo10 *= 10
-					}
-					span *= lo10
-					a, b := 0, 0
-					wantA, wantB := perA, perB
-					if width != 19 {
-						wantA, wantB = perA/3, perB/3
-					}
-					for tries := 0; (a < wantA || b < wantB) && tries < 4000000; tries++ {
-						state = splitmix(state)
-						w := lo10 + state%span
-						man := w << uint(bits.LeadingZeros64(w))
-						hi, _ := bits.Mul64(man, powHi)
-						var take bool
-						switch hi & 0x1FF {
-						case 0x1FF:
-							take = a < wantA
-							if take {
-								a++
-							}
-						case 0:
-							take = b < wantB
-							if take {
-								b++
-							}
-						}
-						if !take {
-							continue
-						}
-						if err := evalAll("wide-product", fmt.Sprintf("%de%d", w, q)); err != nil {
-							r.Fail(caseOf("C04", "wide-product", nil, err), err)
-							break wide
-						}
-					}
-				}
-			}
-		}
 		// 3b. the boundary of the exact fast path: 14-17 digit mantissas round 2^52, 2^53, 1e15,
 		// 1e16 and random ones, with exponents -25..40 (zeros moved into the integer part)
 		rapidLits("fastpath-boundary", e.cfg.N(8000, 800000), func(rt *rapid.T) []string {
@@ -601,6 +528,79 @@ func TestC04(t *testing.T) {
 									break exps
 								}
 							}
+						}
+					}
+				}
+			}
+		}
+		// 3a. the rare branches of a 128-bit mantissa x power-of-ten product, at every decimal
+		// exponent: mantissas are drawn until the high word of (normalised mantissa x the top 64
+		// bits of 10^q) ends in nine one bits (the product needs the lower half of the power to be
+		// decided: one candidate in 512) or nine zero bits (candidate for a halfway case)
+		if e.enumStage("wide-product", "for every decimal exponent q in [-348, 347]: 19-digit and 16/17-digit mantissas w (rejection-sampled, 1 in 512) whose 64x64-bit product with the leading 64 bits of 10^q has a high word ending in 0x1FF (needs the wider approximation) or 0x000 (halfway candidates)", true) {
+			perA, perB := e.cfg.Pick(36, 600), e.cfg.Pick(12, 200)
+		wide:
+			for q := -348; q <= 347; q++ {
+				if !e.cfg.Mine(q + 348) {
+					continue
+				}
+				// leading 64 bits of 10^q
+				var powHi uint64
+				{
+					t := new(big.Int)
+					if q >= 0 {
+						t.Exp(big.NewInt(10), big.NewInt(int64(q)), nil)
+						if bl := t.BitLen(); bl > 64 {
+							t.Rsh(t, uint(bl-64))
+						} else {
+							t.Lsh(t, uint(64-bl))
+						}
+					} else {
+						d := new(big.Int).Exp(big.NewInt(10), big.NewInt(int64(-q)), nil)
+						t.Lsh(big.NewInt(1), uint(d.BitLen()+63))
+						t.Quo(t, d)
+						if bl := t.BitLen(); bl > 64 {
+							t.Rsh(t, uint(bl-64))
+						}
+					}
+					powHi = t.Uint64()
+				}
+				state := uint64(q+1000) * 0x9E3779B97F4A7C15
+				for _, width := range []uint64{19, 17, 16} {
+					lo10, span := uint64(1), uint64(9)
+					for i := uint64(1); i < width; i++ {
+						lo10 *= 10
+					}
+					span *= lo10
+					a, b := 0, 0
+					wantA, wantB := perA, perB
+					if width != 19 {
+						wantA, wantB = perA/3, perB/3
+					}
+					for tries := 0; (a < wantA || b < wantB) && tries < 4000000; tries++ {
+						state = splitmix(state)
+						w := lo10 + state%span
+						man := w << uint(bits.LeadingZeros64(w))
+						hi, _ := bits.Mul64(man, powHi)
+						var take bool
+						switch hi & 0x1FF {
+						case 0x1FF:
+							take = a < wantA
+							if take {
+								a++
+							}
+						case 0:
+							take = b < wantB
+							if take {
+								b++
+							}
+						}
+						if !take {
+							continue
+						}
+						if err := evalAll("wide-product", fmt.Sprintf("%de%d", w, q)); err != nil {
+							r.Fail(caseOf("C04", "wide-product", nil, err), err)
+							break wide
 						}
 					}
 				}
